@@ -44,10 +44,23 @@ public class HsOverrides implements ITLCOverrides {
     static boolean isNumeral(String s) {
         return s.matches("-?[0-9]+(\\.[0-9]+)?([eE][+-]?[0-9]+)?");
     }
+    /** exact value of a numeral; exponents beyond +-5000 are clamped (far outside binary64 either way) */
+    static BigDecimal big(String s) {
+        int e = Math.max(s.indexOf('e'), s.indexOf('E'));
+        if (e < 0) return new BigDecimal(s);
+        BigDecimal m = new BigDecimal(s.substring(0, e));
+        String es = s.substring(e + 1);
+        if (es.startsWith("+")) es = es.substring(1);
+        BigInteger ex = new BigInteger(es);
+        if (m.signum() == 0) return BigDecimal.ZERO;
+        if (ex.abs().compareTo(BigInteger.valueOf(5000)) > 0) ex = BigInteger.valueOf(ex.signum() > 0 ? 5000 : -5000);
+        if (m.precision() - m.scale() > 5000) return m.signum() > 0 ? BigDecimal.ONE.scaleByPowerOfTen(6000) : BigDecimal.ONE.scaleByPowerOfTen(6000).negate();
+        return m.scaleByPowerOfTen(ex.intValue());
+    }
     static BigDecimal dec(Value v) {
         String s = str(v);
         if (!isNumeral(s)) throw new RuntimeException("HsOverrides: not a numeral: " + s);
-        return new BigDecimal(s);
+        return big(s);
     }
     static Value num(BigDecimal d) {
         String s = d.stripTrailingZeros().toPlainString();
@@ -91,15 +104,15 @@ public class HsOverrides implements ITLCOverrides {
     public static Value roundsToF64(final Value numeral, final Value bitsV) {
         String s = str(numeral);
         if (!isNumeral(s)) return BoolValue.ValFalse;
-        return roundsTo(new BigDecimal(s), bits(bitsV)) ? BoolValue.ValTrue : BoolValue.ValFalse;
+        return roundsTo(big(s), bits(bitsV)) ? BoolValue.ValTrue : BoolValue.ValFalse;
     }
 
     @TLAPlusOperator(identifier = "F64OfNumeral", module = "HsNum", warn = false)
     public static Value f64OfNumeral(final Value numeral) {
         String s = str(numeral);
         if (!isNumeral(s)) throw new RuntimeException("HsOverrides: not a numeral: " + s);
-        BigDecimal x = new BigDecimal(s);
-        double d = Double.parseDouble(s);
+        BigDecimal x = big(s);
+        double d = x.doubleValue();
         long b = Double.doubleToRawLongBits(d);
         // self-check from first principles; try neighbours if the JDK parser were ever off
         if (!roundsTo(x, b)) {
